@@ -38,8 +38,9 @@ import (
 //   unary-roundtrip     result payload x envelope schema; WriteUnaryResult -> ReadUnaryResult
 //   unary-streams       stream schema x every batch sequence of length <=3 (thorough <=4)
 //                       over {log, EXCEPTION, data, data', zero-row-non-log}
-//   malformed-bodies    every prefix and every single-byte substitution of 5 valid
-//                       bodies, plus short garbage strings, fed to EVERY helper
+//   malformed-bodies    every prefix and every single-byte substitution of 3 (thorough 5)
+//                       valid bodies, plus short garbage strings, fed to every helper that
+//                       has a parsing loop of its own, inside sacrificial child processes
 
 // ---------------------------------------------------------------------------
 // guarded calls: a panic becomes a value
